@@ -19,6 +19,8 @@ ENGINE["C34"] = "chan"
 ENGINE["C42"] = "rt"
 ENGINE["C40"] = "gen"
 ENGINE["C41"] = "gen"
+# properties with an additional end-to-end half in the simulation
+EXTRA = {"C11": "sim"}
 
 
 def main():
@@ -39,7 +41,43 @@ def main():
     if r.returncode < 0:
         print(f"INCONCLUSIVE: engine killed by signal {-r.returncode}", file=sys.stderr)
         return 2
-    return r.returncode
+    rc = r.returncode
+    # second engine contributing an end-to-end half to the same property (not for replays: a replay
+    # file belongs to the engine that wrote it; try the second engine if the first cannot load it)
+    extra = EXTRA.get(pid)
+    if extra and not rest:
+        b2 = subprocess.run(["cargo", "build", "--release", "-q", "-p", extra], cwd=ROOT, env=env,
+                            stdout=subprocess.PIPE, stderr=subprocess.STDOUT, text=True)
+        if b2.returncode != 0:
+            print(b2.stdout[-4000:])
+            return max(rc, 2)
+        env2 = dict(env, VERIF_EVIDENCE_SUFFIX="e2e")
+        r2 = subprocess.run([os.path.join(ROOT, "target", "release", extra), pid, tier], cwd=ROOT, env=env2)
+        rc2 = 2 if r2.returncode < 0 else r2.returncode
+        main_p = os.path.join(ROOT, "evidence", f"{pid}.json")
+        e2e_p = os.path.join(ROOT, "evidence", f"{pid}.e2e.json")
+        try:
+            import json
+            m = json.load(open(main_p))
+            e = json.load(open(e2e_p))
+            m["coverage"]["e2e_simulation"] = e["coverage"]
+            m["coverage"]["evaluations"] = m["coverage"].get("evaluations", 0) + e["coverage"].get("evaluations", 0)
+            m["coverage"]["distinct_nontrivial"] = m["coverage"].get("distinct_nontrivial", 0) + e["coverage"].get("distinct_nontrivial", 0)
+            m["coverage"]["rule"] = m["coverage"].get("rule", "") + " || END-TO-END HALF (simulation): " + e["coverage"].get("rule", "")
+            m["wall_s"] = m.get("wall_s", 0) + e.get("wall_s", 0)
+            m["violations"] = m.get("violations", 0) + e.get("violations", 0)
+            json.dump(m, open(main_p, "w"), indent=1)
+            os.remove(e2e_p)
+        except Exception as ex:
+            print(f"INCONCLUSIVE: could not merge evidence: {ex}", file=sys.stderr)
+            return max(rc, rc2, 2)
+        if rc == 1 or rc2 == 1:
+            return 1
+        return max(rc, rc2)
+    if extra and rest and rc == 2:
+        r2 = subprocess.run([os.path.join(ROOT, "target", "release", extra), pid, tier] + rest, cwd=ROOT, env=env)
+        return 2 if r2.returncode < 0 else r2.returncode
+    return rc
 
 
 if __name__ == "__main__":
